@@ -1,4 +1,4 @@
-CONSTANT MaxLen = 4
+CONSTANT MaxLen = 5
 INIT Init
 NEXT Next
 INVARIANT Inv
